@@ -237,6 +237,7 @@ class CancelStops(Monitor):
         def v(kind, **sig):
             sig.setdefault("status", status)
             sig.setdefault("after_partial_join_rerun", sim.h["rejoin"])
+            sig.setdefault("with_items_item_went_pending", bool(sim.h.get("item_went_pending")))
             return [{"kind": kind, "sig": sig,
                      "detail": {"inflight": list(infl), "errors": post["errors"], "move": move[:4]}}]
 
